@@ -25,7 +25,6 @@ import (
 	"bytes"
 	"context"
 	"crypto/sha256"
-	"encoding/hex"
 	"encoding/json"
 	"fmt"
 	"io"
@@ -547,7 +546,7 @@ func cliWork(line string) string {
 		// stdout
 		kind, js, jflat, om, tr, vr := "text", "-", "-", "-", "-", "-"
 		switch {
-		case strings.TrimSpace(stdout) == "" && stdout == "":
+		case so.Len() == 0: // "standard output is empty": not a single byte
 			kind = "empty"
 		case hasJSON:
 			doc, ok := parseOneJSON(stdout)
@@ -963,6 +962,42 @@ func genC09(w *bufio.Writer, g *gen, n int) {
 	}
 }
 
+// the exhaustive part of C09: two tasks x two commands, EVERY subset of the four commands failing, the second task
+// depending on the first or independent of it, x {plain, --quiet, --json, --force}, each followed by a second run
+func genC09Exhaustive(w *bufio.Writer, g *gen) {
+	for _, dep := range []bool{true, false} {
+		for mask := 0; mask < 16; mask++ {
+			for _, fl := range [][]string{nil, {"quiet"}, {"json"}, {"force"}} {
+				var tasks []taskSpec
+				for ti, n := range []string{"gen", "build"} {
+					t := taskSpec{name: n, fdeps: []string{fmt.Sprintf("in%d.txt", ti)}}
+					if ti == 1 && dep {
+						t.tdeps = []string{"gen"}
+					}
+					for ci := 0; ci < 2; ci++ {
+						k := cmdSpec{src: fmt.Sprintf("echo K%dx%d >> $LOG; echo o%dx%d", ti, ci, ti, ci), out: fmt.Sprintf("o%dx%d\n", ti, ci)}
+						if mask&(1<<(2*ti+ci)) != 0 {
+							k.status = statusPool[g.rng.Intn(len(statusPool))]
+							k.src += "; exit " + strconv.Itoa(k.status)
+						}
+						k.interp = k.src
+						t.cmds = append(t.cmds, k)
+					}
+					tasks = append(tasks, t)
+				}
+				c := &caseT{proj: "proj", parses: true, loads: true, dotenv: "n", tasks: tasks}
+				c.tree = g.tree(g.render(nil, tasks), tasks, treeOpts{withSpokfile: true})
+				args := []string{"build"}
+				if !dep {
+					args = []string{"build", "gen"}
+				}
+				c.steps = []step{{cwd: "proj", flags: fl, args: args}, {cwd: "proj/sub", flags: fl, args: args}}
+				fmt.Fprintln(w, c.encode())
+			}
+		}
+	}
+}
+
 var actionFlags = []string{"init", "quiet", "debug", "json", "fmt", "vars", "clean", "show", "force"}
 
 // the exhaustive part of C19: every subset of the nine boolean flags x four worlds, one invocation each
@@ -1075,10 +1110,11 @@ func cliGen(w *bufio.Writer, a map[string]string) {
 	sup.CorpusLines(w, "cli")
 	switch prop {
 	case "C09":
+		genC09Exhaustive(w, g)
 		if thorough {
 			genC09(w, g, 2300)
 		} else {
-			genC09(w, g, 320)
+			genC09(w, g, 260)
 		}
 	case "C19":
 		if thorough {
@@ -1096,5 +1132,3 @@ func cliGen(w *bufio.Writer, a map[string]string) {
 		}
 	}
 }
-
-var _ = hex.EncodeToString
